@@ -3,10 +3,15 @@ import re
 from mirq import ty_str
 from mirq.origin import Origins, show, walk, decisions
 from mirq.pat import match, find, strip_refs
+from mirq.canon import Canon
 
 RECT = "embedded_graphics_core::primitives::rectangle::Rectangle"
 PT = ("embedded_graphics_core::geometry::point::Point", "embedded_graphics_core::geometry::size::Size")
 CMP = ("min", "max", "cmp", "clamp", "lt", "le", "gt", "ge", "partial_cmp", "min_by", "max_by", "min_by_key", "max_by_key")
+
+
+def fact_s(x):
+    return "%s(%s)" % (x[0], ", ".join(show(y, maxd=30) if isinstance(y, tuple) and y and isinstance(y[0], str) else str(y) for y in x[1:]))
 
 
 def family_signature(prog, f, depth=0):
@@ -45,15 +50,19 @@ def run(ctx, rep):
         ("contains", prog.method1(RECT, "contains", None), prog.method1(RECT, "contains", "embedded_graphics::primitives::ContainsPoint")),
         ("offset", prog.method1(RECT, "offset", None), prog.method1(RECT, "offset", "embedded_graphics::primitives::OffsetOutline")),
     ]
+    cn = Canon(prog)
+    untag = lambda x: re.sub(r"@bb\d+", "", x)
     for nm, a, b in pairs:
-        sa, sb = family_signature(prog, a), family_signature(prog, b)
-        # closure ids differ by crate/impl path: normalise the def paths of the two functions themselves
-        norm = lambda s, f: s.replace(f.id, "F").replace(f.path, "F")
-        sa, sb = norm(sa, a), norm(sb, b)
-        sa = re.sub(r"closure:[^ ,{}()<>]+|[A-Za-z_:<>]*\{closure#\d+\}", "closure", sa)
-        sb = re.sub(r"closure:[^ ,{}()<>]+|[A-Za-z_:<>]*\{closure#\d+\}", "closure", sb)
+        if a.body["locals"][0]["ty"] == "bool":
+            # the two definitions return true on the same set of inputs: same conjunctions of canonical facts
+            sa = sorted(untag(" & ".join(sorted(fact_s(x) for x in c))) for c in cn.dnf_fn(a, truth=True))
+            sb = sorted(untag(" & ".join(sorted(fact_s(x) for x in c))) for c in cn.dnf_fn(b, truth=True))
+        else:
+            sa = sorted(untag(" & ".join(sorted(fact_s(x) for x in c)) + " => " + show(r, maxd=30)) for c, r in cn.decision_set(a))
+            sb = sorted(untag(" & ".join(sorted(fact_s(x) for x in c)) + " => " + show(r, maxd=30)) for c, r in cn.decision_set(b))
+        sa, sb = " || ".join(sa), " || ".join(sb)
         rep.check(sa == sb, "R16.1", "duplicate:" + nm,
-                  "Rectangle::%s has two public definitions (inherent in embedded-graphics-core and the trait impl in embedded-graphics); they must compute the same function, but their decision structures differ:\n  core: %s\n  eg:   %s" % (nm, sa[:600], sb[:600]),
+                  "Rectangle::%s has two public definitions (inherent in embedded-graphics-core and the trait impl in embedded-graphics); they must compute the same function, but their canonical decision sets differ:\n  core: %s\n  eg:   %s" % (nm, sa[:700], sb[:700]),
                   at=b.span, fn=b.path, detail={"core": sa[:800], "eg": sb[:800]})
         rep.sample({"rule": "R16.1", "fn": nm, "signature": sa[:400]})
 
